@@ -1220,3 +1220,242 @@ func runR69(c *Ctx) {
 		c.ok(fnm+"|header branch", p.instrPos(headerIf), fmt.Sprintf("%d success return(s), all behind the Header branch", n))
 	}
 }
+
+// ---- R71: the ReadSQL scanner column: back-fill of leading NULLs, precision on every float, NaN marker untouched ----
+
+func init() {
+	register(&Rule{ID: "R71", Name: "SQL-COLUMN", Floor: 4,
+		Text: "in internal/io/sql.Column: (a) for every data slice that Null() appends a null marker to (the nullable kinds), each other method that appends to that slice back-fills the NULLs counted before the type was known: a loop bounded by the nulls counter that appends the null marker to the same slice (or a make of that slice with the counter as length) - leading NULLs keep their rows; (b) every value appended to the float slice is either the math.NaN() null marker or, evaluated (E5) in the worlds precision>0 / precision<=0, float.Fixed(value, precision) resp. the value itself - every float, scanned or coerced, is rounded in the one function all of them pass through; (c) the math.NaN() marker is never passed to Column.Float (float.Fixed would round it to a finite number)",
+		Run:  runR71})
+}
+
+func runR71(c *Ctx) {
+	p := c.P
+	pkg := "internal/io/sql"
+	nullFn := p.Func(pkg, "Column.Null")
+	if nullFn == nil {
+		c.undecided("sql.Column.Null", "-", "method not found")
+		return
+	}
+	// data-slice field appended to by an append call: append(load(&X.data.F), ...) stored back to &X.data.F
+	appendField := func(call *ssa.Call) string {
+		if builtinName(call) != "append" || len(call.Call.Args) == 0 {
+			return ""
+		}
+		ld, ok := call.Call.Args[0].(*ssa.UnOp)
+		if !ok || ld.Op != token.MUL {
+			return ""
+		}
+		fa, ok := ld.X.(*ssa.FieldAddr)
+		if !ok {
+			return ""
+		}
+		return fieldNameAt(fa)
+	}
+	appendedElems := func(call *ssa.Call) []ssa.Value {
+		var out []ssa.Value
+		if len(call.Call.Args) != 2 {
+			return nil
+		}
+		sl, ok := call.Call.Args[1].(*ssa.Slice)
+		if !ok {
+			return nil
+		}
+		al, ok := sl.X.(*ssa.Alloc)
+		if !ok {
+			return nil
+		}
+		for _, r := range *al.Referrers() {
+			if ia, ok := r.(*ssa.IndexAddr); ok {
+				for _, r2 := range *ia.Referrers() {
+					if st, ok := r2.(*ssa.Store); ok && st.Addr == ssa.Value(ia) {
+						out = append(out, st.Val)
+					}
+				}
+			}
+		}
+		return out
+	}
+	isNaNCall := func(v ssa.Value) bool {
+		call, ok := v.(*ssa.Call)
+		return ok && isFuncNamed(calleeObj(call), "math", "", "NaN")
+	}
+	nullable := map[string]bool{}
+	eachInstr(nullFn, func(in ssa.Instruction) {
+		if call, ok := in.(*ssa.Call); ok {
+			if f := appendField(call); f != "" {
+				nullable[f] = true
+			}
+		}
+	})
+	if len(nullable) == 0 {
+		c.undecided("sql.Column.Null|kinds", p.pos(nullFn.Pos()), "Null() appends to no data slice")
+		return
+	}
+	// (c)
+	for _, fn := range p.FuncsIn(pkg) {
+		eachInstr(fn, func(in ssa.Instruction) {
+			call, ok := in.(*ssa.Call)
+			if !ok {
+				return
+			}
+			if callee := call.Call.StaticCallee(); callee != nil && callee.Name() == "Float" && callee.Pkg == fn.Pkg {
+				for _, a := range call.Call.Args {
+					if isNaNCall(a) {
+						c.bad(fname(fn)+"|NaN through Float", p.instrPos(call), "the NaN null marker is passed to Column.Float, whose precision rounding turns it into a finite number")
+					}
+				}
+			}
+		})
+	}
+	floatField := ""
+	for _, fn := range p.FuncsIn(pkg) {
+		if fn.Signature.Recv() == nil || fn == nullFn {
+			continue
+		}
+		fnm := fname(fn)
+		perField := map[string][]*ssa.Call{}
+		eachInstr(fn, func(in ssa.Instruction) {
+			if call, ok := in.(*ssa.Call); ok {
+				if f := appendField(call); f != "" {
+					perField[f] = append(perField[f], call)
+				}
+			}
+		})
+		for f, calls := range perField {
+			if !nullable[f] {
+				continue
+			}
+			// (a) back-fill
+			key := fnm + "|back-fill " + f
+			found := false
+			for _, li := range loopsOf(fn) {
+				boundByNulls := false
+				for _, in := range li.header.Instrs {
+					if b, ok := in.(*ssa.BinOp); ok && (b.Op == token.LSS || b.Op == token.LEQ || b.Op == token.GTR || b.Op == token.NEQ) {
+						if fieldNameOfLoad(b.Y) == "nulls" || fieldNameOfLoad(b.X) == "nulls" {
+							boundByNulls = true
+						}
+					}
+				}
+				if !boundByNulls {
+					continue
+				}
+				for _, call := range calls {
+					if inLoop(li, call.Block()) {
+						found = true
+					}
+				}
+			}
+			eachInstr(fn, func(in ssa.Instruction) {
+				if mk, ok := in.(*ssa.MakeSlice); ok && fieldNameOfLoad(mk.Len) == "nulls" {
+					for _, r := range *mk.Referrers() {
+						if st, ok := r.(*ssa.Store); ok {
+							if fa, ok := st.Addr.(*ssa.FieldAddr); ok && fieldNameAt(fa) == f {
+								found = true
+							}
+						}
+					}
+				}
+			})
+			if found {
+				c.ok(key, p.pos(fn.Pos()), "NULLs counted before the type was known are appended (loop bounded by the nulls counter)")
+			} else {
+				c.bad(key, p.pos(fn.Pos()), fmt.Sprintf("%s appends to %s, a slice Null() marks nulls in, but never back-fills the NULLs counted before the column's type was known: leading NULLs lose their rows and the column ends up shorter than the others", fn.Name(), f))
+			}
+		}
+		// (b) floats
+		for f, calls := range perField {
+			isFloat := false
+			for _, call := range calls {
+				if sl, ok := call.Type().Underlying().(*types.Slice); ok && isFloatType(sl.Elem()) {
+					isFloat = true
+				}
+			}
+			if !isFloat {
+				continue
+			}
+			floatField = f
+			for _, call := range calls {
+				elems := appendedElems(call)
+				allNaN := len(elems) > 0
+				for _, e := range elems {
+					if !isNaNCall(e) {
+						allNaN = false
+					}
+				}
+				if allNaN {
+					continue // null marker
+				}
+				for _, world := range []bool{true, false} {
+					key := fmt.Sprintf("%s|float append, world precision>0=%v", fnm, world)
+					pe := &pathExec{fn: fn}
+					var got ssa.Value
+					atom := func(x ssa.Value) (bool, bool) {
+						b, ok := x.(*ssa.BinOp)
+						if !ok {
+							return false, false
+						}
+						if fieldNameOfLoad(b.X) == "precision" || fieldNameOfLoad(b.Y) == "precision" {
+							switch b.Op {
+							case token.GTR, token.NEQ, token.GEQ:
+								return world, true
+							case token.LEQ, token.EQL, token.LSS:
+								return !world, true
+							}
+						}
+						if fieldNameOfLoad(b.X) == "ptr" || fieldNameOfLoad(b.X) == "kind" {
+							return b.Op == token.NEQ, true // the type is already known
+						}
+						if fieldNameOfLoad(b.X) == "nulls" || fieldNameOfLoad(b.Y) == "nulls" {
+							return false, true
+						}
+						return false, false
+					}
+					pe.oracle = func(pe *pathExec, cond ssa.Value) (bool, bool) { return pe.evalBool(cond, atom) }
+					pe.onInstr = func(pe *pathExec, in ssa.Instruction) {
+						if in == ssa.Instruction(call) {
+							if es := appendedElems(call); len(es) == 1 {
+								got = pe.resolve(es[0])
+							}
+							if sl, ok := call.Call.Args[1].(*ssa.Slice); ok {
+								if k, ok := cellKey(sl.X); ok {
+									if v, ok := pe.mem[k+"[0]"]; ok {
+										got = v
+									}
+								}
+							}
+						}
+					}
+					end, why := pe.run()
+					if _, ok := end.(*ssa.Return); !ok {
+						c.undecided(key, p.instrPos(call), "cannot evaluate: "+why)
+						continue
+					}
+					if got == nil {
+						c.undecided(key, p.instrPos(call), "the append is not reached in this world")
+						continue
+					}
+					fixed := false
+					if cl, ok := got.(*ssa.Call); ok && isFuncNamed(calleeObj(cl), rel("internal/math/float"), "", "Fixed") {
+						fixed = true
+					}
+					_, isParam := got.(*ssa.Parameter)
+					switch {
+					case world && fixed:
+						c.ok(key, p.instrPos(call), "the appended value is float.Fixed(value, precision)")
+					case !world && isParam:
+						c.ok(key, p.instrPos(call), "the appended value is the value itself")
+					case world:
+						c.bad(key, p.instrPos(call), "with a precision configured the value is appended unrounded ("+describe(got)+"): floats that reach the column through this function (coercions, other scan types) ignore Precision(n)")
+					default:
+						c.bad(key, p.instrPos(call), "without a precision the appended value is not the scanned value ("+describe(got)+")")
+					}
+				}
+			}
+		}
+	}
+	if floatField == "" {
+		c.undecided("sql.Column|float slice", p.pos(nullFn.Pos()), "no method appends to a float slice")
+	}
+}
